@@ -347,6 +347,18 @@ def rule_typo(c: Ctx) -> RuleResult:
                         r.add(f"{f.short}|list-mut|{alpha(f, n)[:50]}", c.where(f, n), f.short, U(n)[:70], "violation",
                               "a typographic rule restructures a token list: the stream's shape must not change")
             if isinstance(n, ast.Delete):
+                # deleting from a local bookkeeping list (the quote stack) is fine; from a token list, a token, or anything the
+                # rule did not build itself, it is not
+                def own_list(t: ast.AST) -> bool:
+                    b = t.value if isinstance(t, ast.Subscript) else None
+                    if not isinstance(b, ast.Name) or not sc.is_local(b.id) or b.id in {a.arg for a in f.node.args.args + f.node.args.kwonlyargs}:
+                        return False
+                    bt = sc.type(b)
+                    if isinstance(bt, tuple) and bt[0] == "list" and len(bt) > 1 and bt[1] == "Token":
+                        return False
+                    return c.eff.fresh_local(f, b.id)
+                if all(own_list(t) for t in n.targets):
+                    continue
                 r.add(f"{f.short}|del|{alpha(f, n)[:50]}", c.where(f, n), f.short, U(n)[:70], "violation", "a typographic rule deletes from a structure")
         # autolink bookkeeping cannot be bypassed
         if f.module.rel.endswith("replacements.py"):
